@@ -337,11 +337,12 @@ def r10_2(ctx):
     cm = repo.func(f"{EZ}:EZSP._command")
     ctx.fn(cm)
     for running in (True, False):
+      for cname in ("nop", "version", "sendUnicast", "getValue"):  # the gate does not depend on which command it is
         px = PX(repo, models=[("*.is_set", lambda px_, t, a, k, fr: running)], inline=same_class())
-        for p in px.explore(cm, lambda: (self_obj(ez, {"_protocol": Obj(TypeRef("Handler"), {}, tag="proto")}), {"name": "nop", "args": (), "kwargs": {}})):
+        for p in px.explore(cm, lambda: (self_obj(ez, {"_protocol": Obj(TypeRef("Handler"), {}, tag="proto")}), {"name": cname, "args": (), "kwargs": {}})):
             sent = [e for e in p.events if e.kind == "await"]
             ok = (running and len(sent) == 1 and p.terminal == "return") or (not running and not sent and p.raised("EzspError"))
-            ctx.require(ok, f"_command:running={running}", f"EZSP {'running' if running else 'stopped'}: command reaches the handler {len(sent)}x, {p.terminal} "
+            ctx.require(ok, f"_command:running={running}" + ("" if cname == "nop" else f":{cname}"), f"EZSP {'running' if running else 'stopped'}: command {cname} reaches the handler {len(sent)}x, {p.terminal} "
                         f"{p.value if p.terminal == 'raise' else ''}", func=cm, trace=p.trace())
     # closed-transport gate
     wf = repo.func(f"{ASH}:AshProtocol._write_frame")
